@@ -1,1 +1,281 @@
-(* Model/Banded.v -- stub, to be filled in *)
+(* Model/Banded.v -- src/banded.rs over any Arith.  Definitions only.
+   Storage as the code stores it: the compact n x (m1+m2+1) dense [matrix] (flat, row-major,
+   every access checked); entry (i,j) of the band lives at compact[(i, m1 + j - i)]; the slots
+   of the compact matrix whose column j = i + s - m1 falls outside 0..n are padding.
+   [decompose] is modelled statement by statement (left shift of the first m1 rows, growing
+   window l, pivot search, index[k] = i+1, the `dum == 0` line, swap over all mm slots,
+   elimination with shift, stored multipliers al).  The boolean [legacy] selects the pre-repair
+   pivot rule of commit 2fe46f5^ (signed comparison, unconditional division). *)
+From Coq Require Import List Arith Lia ZArith Bool.
+From OV Require Import Base.Panic Base.Arith Base.Flat Model.Vector Model.Matrix.
+Import ListNotations.
+Local Open Scope arith_scope.
+Local Open Scope bool_scope.
+
+Section Band.
+Context {A : Arith}.
+Notation T := (T A).
+Notation matrix := (matrix A).
+
+Record banded := mkB { bn : nat; bm1 : nat; bm2 : nat; compact : matrix }.
+
+Definition with_compact (B : banded) (c : matrix) : banded := mkB (bn B) (bm1 B) (bm2 B) c.
+
+(* new / fill / resize / fill_band  (banded.rs:57-89) *)
+Definition band_new (n m1 m2 : nat) (x : T) : banded := mkB n m1 m2 (mat_new n (m1 + m2 + 1) x).
+Definition band_fill (B : banded) (x : T) : res banded :=
+  let* c := fill (compact B) x in Ok (with_compact B c).
+Definition band_resize (B : banded) (n m1 m2 : nat) : res banded :=
+  let* c := resize (compact B) n (m1 + m2 + 1) in Ok (mkB n m1 m2 c).
+Definition band_fill_band (B : banded) (band : Z) (x : T) : res banded :=
+  if (band <? - Z.of_nat (bm1 B))%Z || (Z.of_nat (bm2 B) <? band)%Z then Panic Guard else
+  let* c := fill_col (compact B) (Z.to_nat (Z.of_nat (bm1 B) + band)) x in Ok (with_compact B c).
+
+(* Index / IndexMut (banded.rs:203-224): `j > i + m2 || i > j + m1` panics; slot m1 + j - i.
+   Neither i nor j is compared with n: an in-band pair with j >= n addresses a padding slot of
+   row i, a pair with i >= n falls off the buffer (Vec index panic). *)
+Definition out_of_band (m1 m2 i j : nat) : bool := (i + m2 <? j) || (j + m1 <? i).
+Definition in_band (m1 m2 i j : nat) : bool := negb (out_of_band m1 m2 i j).
+Definition band_slot (m1 i j : nat) : nat := m1 + j - i.
+Definition band_get (B : banded) (i j : nat) : res T :=
+  if out_of_band (bm1 B) (bm2 B) i j then Panic Guard else
+  mget (compact B) i (band_slot (bm1 B) i j).
+Definition band_set (B : banded) (i j : nat) (x : T) : res banded :=
+  if out_of_band (bm1 B) (bm2 B) i j then Panic Guard else
+  let* c := mset (compact B) i (band_slot (bm1 B) i j) x in Ok (with_compact B c).
+
+(* operators (banded.rs:253-460): the three size guards where the code has them, then the
+   dense operator on the compact matrices *)
+Definition band_guard3 {X} (B C : banded) (k : res X) : res X :=
+  if negb (bn B =? bn C) then Panic Guard else
+  if negb (bm1 B =? bm1 C) then Panic Guard else
+  if negb (bm2 B =? bm2 C) then Panic Guard else k.
+Definition band_neg (B : banded) : res banded :=
+  let* c := mneg (compact B) in Ok (with_compact B c).
+Definition band_add (B C : banded) : res banded :=
+  band_guard3 B C (let* c := madd (compact B) (compact C) in Ok (with_compact B c)).
+Definition band_sub (B C : banded) : res banded :=
+  band_guard3 B C (let* c := msub (compact B) (compact C) in Ok (with_compact B c)).
+Definition band_scale (B : banded) (s : T) : res banded :=
+  let* c := mscale (compact B) s in Ok (with_compact B c).
+Definition band_div (B : banded) (s : T) : res banded :=
+  let* c := mdiv (compact B) s in Ok (with_compact B c).
+Definition band_add_assign (B C : banded) : res banded :=
+  band_guard3 B C (let* c := madd_assign (compact B) (compact C) in Ok (with_compact B c)).
+Definition band_sub_assign (B C : banded) : res banded :=
+  band_guard3 B C (let* c := msub_assign (compact B) (compact C) in Ok (with_compact B c)).
+Definition band_mul_assign_s (B : banded) (s : T) : res banded :=
+  let* c := mmul_assign_scalar (compact B) s in Ok (with_compact B c).
+Definition band_div_assign_s (B : banded) (s : T) : res banded :=
+  let* c := mdiv_assign_scalar (compact B) s in Ok (with_compact B c).
+Definition band_add_assign_s (B : banded) (s : T) : res banded :=
+  let* c := madd_assign_scalar (compact B) s in Ok (with_compact B c).
+Definition band_sub_assign_s (B : banded) (s : T) : res banded :=
+  let* c := msub_assign_scalar (compact B) s in Ok (with_compact B c).
+
+(* &B * &v (banded.rs:463-485): signed loop bounds as the code computes them (isize) *)
+Definition band_mul (B : banded) (v : list T) : res (list T) :=
+  if negb (bn B =? length v) then Panic Guard else
+  let n := Z.of_nat (bn B) in
+  let m1 := Z.of_nat (bm1 B) in
+  let m2 := Z.of_nat (bm2 B) in
+  for_ 0 (bn B) (fun i result =>
+    let k := (Z.of_nat i - m1)%Z in
+    let tmploop := Z.min (m1 + m2 + 1) (n - k) in
+    for_ (Z.to_nat (Z.max 0 (- k))) (Z.to_nat tmploop) (fun j result =>
+      let* ri := rd result i in
+      let* a := mget (compact B) i j in
+      let* x := rd v (Z.to_nat (Z.of_nat j + k)) in
+      upd result i (ri + a * x)) result) (repeat zero (bn B)).
+
+(* ---- decompose (banded.rs:91-143) ---- *)
+
+(* first loop: rows 0..m1 are shifted left so that their first in-matrix entry sits in slot 0 *)
+Definition shift_rows (m1 mm : nat) (au : matrix) : res matrix :=
+  let* s := for_ 0 m1 (fun i (s : matrix * nat) =>
+      let '(au, l) := s in
+      let* au := for_ (m1 - i) mm (fun j au => let* x := mget au i j in mset au i (j - l) x) au in
+      let l := (l - 1)%nat in
+      let* au := for_ (mm - l - 1) mm (fun j au => mset au i j zero) au in
+      Ok (au, l)) (au, m1) in
+  Ok (fst s).
+
+(* the comparison of the pivot search: repaired `a.abs() > dum.abs()`, legacy `a > dum` *)
+Definition pivot_better (legacy : bool) (a dum : T) : bool :=
+  if legacy then gtb a dum else gtb (abs a) (abs dum).
+
+Definition find_pivot (legacy : bool) (au : matrix) (k l : nat) : res (T * nat) :=
+  let* dum := mget au k 0 in
+  for_ (k + 1) l (fun j (p : T * nat) =>
+    let '(dum, i) := p in
+    let* a := mget au j 0 in
+    if pivot_better legacy a dum then Ok (a, j) else Ok (dum, i)) (dum, k).
+
+Definition swap_band_rows (mm : nat) (au : matrix) (k i : nat) : res matrix :=
+  for_ 0 mm (fun j au => swap_elem au k j i j) au.
+
+(* the multiplier: repaired `if au[(k,0)] == 0 { 0 } else { au[(i,0)] / au[(k,0)] }` *)
+Definition multiplier (legacy : bool) (au : matrix) (k i : nat) : res T :=
+  if legacy then
+    let* aik := mget au i 0 in let* akk := mget au k 0 in div aik akk
+  else
+    let* akk := mget au k 0 in
+    if eqb akk zero then Ok zero else
+    let* aik := mget au i 0 in let* akk := mget au k 0 in div aik akk.
+
+Definition elim_row (legacy : bool) (mm k : nat) (i : nat) (s : matrix * matrix) : res (matrix * matrix) :=
+  let '(au, al) := s in
+  let* dum := multiplier legacy au k i in
+  let* al := mset al k (i - k - 1) dum in
+  let* au := for_ 1 mm (fun j au =>
+               let* aij := mget au i j in
+               let* akj := mget au k j in
+               mset au i (j - 1) (aij - dum * akj)) au in
+  let* au := mset au i (mm - 1) zero in
+  Ok (au, al).
+
+Definition dec_state : Type := (matrix * matrix * list nat * T * nat)%type.   (* au, al, index, d, l *)
+
+Definition dec_step (legacy : bool) (n mm : nat) (k : nat) (s : dec_state) : res dec_state :=
+  let '(au, al, index, d, l) := s in
+  let l := (if l <? n then l + 1 else l)%nat in
+  let* p := find_pivot legacy au k l in
+  let '(dum, i) := p in
+  let* index := upd index k (i + 1)%nat in
+  let* au := (if eqb dum zero then mset au k 0 zero else Ok au) in
+  let* s := (if negb (i =? k) then
+               let* au := swap_band_rows mm au k i in Ok (au, - d)
+             else Ok (au, d)) in
+  let '(au, d) := s in
+  let* s := for_ (k + 1) l (elim_row legacy mm k) (au, al) in
+  let '(au, al) := s in
+  Ok (au, al, index, d, l).
+
+Definition decompose_gen (legacy : bool) (B : banded) (au al : matrix) (index : list nat)
+  : res (matrix * matrix * list nat * T) :=
+  let mm := (bm1 B + bm2 B + 1)%nat in
+  let* au := shift_rows (bm1 B) mm au in
+  let* s := for_ 0 (bn B) (dec_step legacy (bn B) mm) (au, al, index, one, bm1 B) in
+  let '(au, al, index, d, _) := s in
+  Ok (au, al, index, d).
+
+(* det (banded.rs:147-159) *)
+Definition band_det_gen (legacy : bool) (B : banded) : res T :=
+  let* r := decompose_gen legacy B (compact B) (mat_new (bn B) (bm1 B) zero) (repeat 0 (bn B)) in
+  let '(au, _, _, d) := r in
+  for_ 0 (bn B) (fun i dd => let* a := mget au i 0 in Ok (dd * a)) d.
+
+(* solve (banded.rs:164-200) *)
+Definition fwd_step (n : nat) (al : matrix) (index : list nat) (k : nat) (s : list T * nat)
+  : res (list T * nat) :=
+  let '(x, l) := s in
+  let* ik := rd index k in
+  let* j := usub ik 1 in
+  let* x := (if negb (j =? k) then vswap x k j else Ok x) in
+  let l := (if l <? n then l + 1 else l)%nat in
+  let* x := for_ (k + 1) l (fun j x =>
+              let* xk := rd x k in
+              let* a := mget al k (j - k - 1) in
+              let* xj := rd x j in
+              upd x j (xj - a * xk)) x in
+  Ok (x, l).
+
+Definition back_step (mm : nat) (au : matrix) (i : nat) (s : list T * nat) : res (list T * nat) :=
+  let '(x, l) := s in
+  let* dum := rd x i in
+  let* dum := for_ 1 l (fun k dum =>
+                let* a := mget au i k in
+                let* xk := rd x (k + i) in
+                Ok (dum - a * xk)) dum in
+  let* d0 := mget au i 0 in
+  let* q := div dum d0 in
+  let* x := upd x i q in
+  Ok (x, (if l <? mm then l + 1 else l)%nat).
+
+Definition band_solve_gen (legacy : bool) (B : banded) (b : list T) : res (list T) :=
+  if negb (bn B =? length b) then Panic Guard else
+  let* r := decompose_gen legacy B (compact B) (mat_new (bn B) (bm1 B) zero) (repeat 0 (bn B)) in
+  let '(au, al, index, _) := r in
+  let mm := (bm1 B + bm2 B + 1)%nat in
+  let* s := for_ 0 (bn B) (fwd_step (bn B) al index) (b, bm1 B) in
+  let* s := for_rev 0 (bn B) (back_step mm au) (fst s, 1) in
+  Ok (fst s).
+
+Definition band_det := band_det_gen false.
+Definition band_solve := band_solve_gen false.
+Definition band_det_legacy := band_det_gen true.
+Definition band_solve_legacy := band_solve_gen true.
+
+(* ---- operation histories on one banded matrix (kind band.hist of the correspondence check) ---- *)
+
+Inductive bop :=
+| BNew (n m1 m2 : nat) (x : T) | BFill (x : T) | BResize (n m1 m2 : nat) | BFillBand (b : Z) (x : T)
+| BSet (i j : nat) (x : T)
+| BAddAssign (C : banded) | BSubAssign (C : banded)
+| BMulAssignS (x : T) | BDivAssignS (x : T) | BAddAssignS (x : T) | BSubAssignS (x : T)
+(* value-returning *)
+| BGet (i j : nat) | BGetAll | BNeg | BAdd (C : banded) | BSub (C : banded) | BScale (x : T) | BDiv (x : T)
+| BMulV (v : list T) | BSolve (b : list T) | BDet | BSize | BDump.
+
+Inductive bval := WNone | WS (x : T) | WV (v : list T) | WB (B : banded) | WN (a b c : nat)
+                | WAll (l : list (res T)).
+
+Definition all_pairs (n : nat) : list (nat * nat) :=
+  flat_map (fun i => map (fun j => (i, j)) (seq 0 n)) (seq 0 n).
+
+Definition bstep (B : banded) (o : bop) : res (banded * bval) :=
+  match o with
+  | BNew n m1 m2 x => Ok (band_new n m1 m2 x, WNone)
+  | BFill x => let* B' := band_fill B x in Ok (B', WNone)
+  | BResize n m1 m2 => let* B' := band_resize B n m1 m2 in Ok (B', WNone)
+  | BFillBand b x => let* B' := band_fill_band B b x in Ok (B', WNone)
+  | BSet i j x => let* B' := band_set B i j x in Ok (B', WNone)
+  | BAddAssign C => let* B' := band_add_assign B C in Ok (B', WNone)
+  | BSubAssign C => let* B' := band_sub_assign B C in Ok (B', WNone)
+  | BMulAssignS x => let* B' := band_mul_assign_s B x in Ok (B', WNone)
+  | BDivAssignS x => let* B' := band_div_assign_s B x in Ok (B', WNone)
+  | BAddAssignS x => let* B' := band_add_assign_s B x in Ok (B', WNone)
+  | BSubAssignS x => let* B' := band_sub_assign_s B x in Ok (B', WNone)
+  | BGet i j => let* x := band_get B i j in Ok (B, WS x)
+  | BGetAll => Ok (B, WAll (map (fun p => band_get B (fst p) (snd p)) (all_pairs (bn B))))
+  | BNeg => let* R := band_neg B in Ok (B, WB R)
+  | BAdd C => let* R := band_add B C in Ok (B, WB R)
+  | BSub C => let* R := band_sub B C in Ok (B, WB R)
+  | BScale x => let* R := band_scale B x in Ok (B, WB R)
+  | BDiv x => let* R := band_div B x in Ok (B, WB R)
+  | BMulV v => let* r := band_mul B v in Ok (B, WV r)
+  | BSolve b => let* x := band_solve B b in Ok (B, WV x)
+  | BDet => let* d := band_det B in Ok (B, WS d)
+  | BSize => Ok (B, WN (bn B) (bm1 B) (bm2 B))
+  | BDump => Ok (B, WB B)
+  end.
+
+Variable flat : T -> list Z.
+Definition fl_cmat (m : matrix) : list Z :=
+  fl_nat (rows m) ++ fl_nat (cols m) ++ concat (map flat (buf m)).
+Definition fl_band (B : banded) : list Z :=
+  fl_nat (bn B) ++ fl_nat (bm1 B) ++ fl_nat (bm2 B) ++ fl_cmat (compact B).
+Definition fl_bval (v : bval) : list Z :=
+  match v with
+  | WNone => fl_nat 0 | WS x => flat x | WV v => fl_list flat v | WB B => fl_band B
+  | WN a b c => fl_nat a ++ fl_nat b ++ fl_nat c
+  | WAll l => concat (map (fl_res flat) l)
+  end.
+
+(* the state is dumped by the explicit operation BDump only; an operation without a result
+   answers [0] so that a panic item always belongs to the operation at whose place it stands *)
+Fixpoint brun_out (B : banded) (ops : list bop) : list Z :=
+  match ops with
+  | [] => []
+  | o :: t =>
+      match bstep B o with
+      | Ok (B', v) => fl_bval v ++ brun_out B' t
+      | Panic k => fl_panic k ++ brun_out B t
+      end
+  end.
+Definition band_hist (B : banded) (ops : list bop) : list Z := fl_band B ++ brun_out B ops.
+
+End Band.
+
+Arguments banded A : clear implicits.
+Arguments bop A : clear implicits.
